@@ -73,6 +73,7 @@ class State:
         self.trace = []         # ghost events (python list of tuples)
         self.moved = set()      # roots whose value was copied into a container
         self.notes = []
+        self.stale = frozenset()   # roots detached by a callee: read-only
         self.next_oid = [0]
         self.calls = []         # recorded external calls (C12, C06, C11)
         self.isn = set()
@@ -91,6 +92,7 @@ class State:
         s.calls = list(self.calls)
         s.isn = set(self.isn)
         s.sav = self.sav
+        s.stale = self.stale
         return s
 
     def assume(self, cond):
@@ -138,6 +140,10 @@ class State:
         return t
 
     def write(self, ref, new):
+        if ref.root in self.stale:
+            raise Unsupported('store through a reference into a node that a '
+                              'callee has restructured since (detached '
+                              'place)')
         def rebuild(t, path):
             if not path:
                 return new
